@@ -1,6 +1,6 @@
-(** IEEE-754 side of C04, through Flocq (only this file and the two statements
-    of Props/C04.v that use it depend on Flocq and hence on the four
-    standard-library axioms of the real numbers): the f64 sum of ZINCRBY, and a
+(** IEEE-754 side of C04, through Flocq (only this file and Props/C04F64.v
+    depend on Flocq and hence on the four standard-library axioms of the real
+    numbers; Props/C04.v does not): the f64 sum of ZINCRBY, and a
     check of the bit-pattern comparison of Model/SkipList.v against Flocq's
     [b64_compare] on a pool of patterns. *)
 From Flocq Require Import IEEE754.BinarySingleNaN IEEE754.Binary IEEE754.Bits.
@@ -14,15 +14,9 @@ Definition f64_add (a b : Z) : Z := bits_of_b64 (b64_plus mode_NE (b64_of_bits a
 Lemma inf_minus_inf_is_nan : f_is_nan (f64_add pinf_bits ninf_bits) = true.
 Proof. vm_compute. reflexivity. Qed.
 
-(** F-04a: ZADD z inf m; ZINCRBY z -inf m stores NaN (the sum the oracle reports is the IEEE sum) *)
-Lemma zincrby_nan_stored :
-  exists d1 d2,
-    exec_zsets 0 empty_db (bs "ZADD") (cmd [bs "ZADD"; kz; bs "inf"; bs "m"])
-      (oracle_of [None; None; Some pinf_bits; None]) = Some (r_int 1, d1) /\
-    exec_zsets 0 d1 (bs "ZINCRBY") (cmd [bs "ZINCRBY"; kz; bs "-inf"; bs "m"])
-      (oracle_of [None; None; Some ninf_bits; None; Some (f64_add pinf_bits ninf_bits)]) = Some (FDouble nan_bits, d2) /\
-    eng_zscore d2 kz (bs "m") = Some (Some nan_bits).
-Proof. do 2 eexists. split; [vm_compute; reflexivity|]. split; vm_compute; reflexivity. Qed.
+(** the sum the ZINCRBY witness of Props/C04.v takes from the oracle is the IEEE sum *)
+Lemma inf_minus_inf_bits : f64_add pinf_bits ninf_bits = nan_bits.
+Proof. vm_compute. reflexivity. Qed.
 
 (** the comparison on bit patterns agrees with IEEE comparison on a pool of
     patterns (zeros, ones, subnormals, 2^53 neighbours, max, infinities, NaNs) - a test *)
